@@ -44,7 +44,7 @@ func (b Binary) String() string {
 func (b Binary) Compare(other core.Value) int64 {
 	if other.Type() == types.Binary {
 		// TODO: Lame comparison, need to think more about it
-		b2 := other.(*Binary)
+		b2 := other.(Binary)
 
 		if b2.Length() == b.Length() {
 			return 0
